@@ -125,6 +125,15 @@ void checkTokens(Ctx& ctx, const std::vector<ref::LzhToken>& toks, const char* s
 	if (got.out != exp.out) { ctx.violation(std::string(site) + "/tail-differs-from-reference", key, "lengths " + std::to_string(got.out.size()) + "/" + std::to_string(exp.out.size())); return; }
 	ctx.outcome(mc::fnv(exp.out.data(), exp.out.size()));
 	ctx.count(exp.codes > toks.size() ? "tokens/with-padding-codes" : "tokens/exact-end");
+	// every leading part of the encoding is an input as well (a final code cut anywhere inside its offset field)
+	if (toks.size() <= 3) for (std::size_t k = 1; k < enc.size(); ++k) {
+		std::vector<uint8_t> in(enc.begin(), enc.begin() + k);
+		ref::LzhDecoded e2 = ref::lzhDecode(in.data(), in.size());
+		ImplOut g2 = implDecode(in, 4096);
+		ctx.transition();
+		ctx.count("tokens/leading-parts");
+		if (!compareWithRef(ctx, std::string(site) + "/leading-part", key + " leading " + std::to_string(k) + " of " + std::to_string(enc.size()) + " bytes", in, g2, e2)) return;
+	}
 }
 
 void tokenSequences(Ctx& ctx, int first, int maxDepth)
@@ -250,6 +259,25 @@ void drainCase(Ctx& ctx, int which)
 	ctx.outcome(mc::fnv(exp.out.data(), exp.out.size()) ^ r.states);
 	ctx.count(("drain/states-stream" + std::to_string(which)).c_str(), r.states);
 	if (which == 5 || which == 0) ctx.sample("drain BFS stream " + std::to_string(which) + ": input " + std::to_string(input->size()) + " bytes -> " + std::to_string(exp.out.size()) + " output bytes, " + std::to_string(sizes.size()) + "-operation alphabet, states=" + std::to_string(r.states) + " transitions=" + std::to_string(r.transitions) + " fixpoint=" + (r.fixpoint ? "yes" : "no"));
+}
+
+// every leading part (byte granularity) of an encoded stream is itself an input: codes whose offset field or Huffman
+// path straddles the end of the input must decode as the reference does (missing bits read as zero)
+void prefixCase(Ctx& ctx, int which)
+{
+	std::vector<uint8_t> full = streamFor(which);
+	uint64_t n = 0;
+	for (std::size_t k = 1; k < full.size(); ++k) {
+		std::vector<uint8_t> in(full.begin(), full.begin() + k);
+		if ((k & 31) == 1) ctx.sub("stream " + std::to_string(which) + " leading " + std::to_string(k) + " of " + std::to_string(full.size()) + " bytes");
+		ref::LzhDecoded exp = ref::lzhDecode(in.data(), in.size());
+		ImplOut got = implDecode(in, k % 3 == 0 ? 1 : k % 3 == 1 ? 4096 : 62);
+		ctx.transition(); ++n;
+		compareWithRef(ctx, "C04/leading-part", "stream " + std::to_string(which) + " leading " + std::to_string(k) + " bytes", in, got, exp);
+		ctx.count("leading/parts");
+		ctx.outcome(mc::fnv(exp.out.data(), exp.out.size()) ^ k);
+	}
+	ctx.state(n); ctx.trace(n);
 }
 
 // all drain schedules on every short input (tiny graphs): first byte f, second byte from a small set, and the 1-byte inputs
@@ -421,6 +449,7 @@ void build(Ctx& ctx)
 	for (int t = 0; t < 32; ++t) gCases.push_back({ 'B', t, ctx.thorough ? 4 : 3 });
 	for (int len = 3; len <= 60; ++len) gCases.push_back({ 'C', len, 0 });
 	for (int s = 0; s < 6; ++s) gCases.push_back({ 'D', s, 0 });
+	for (int s = 0; s < 6; ++s) gCases.push_back({ 'P', s, 0 });
 	for (int f = 0; f < 256; f += 16) gCases.push_back({ 'd', f, f + 16 });
 	for (int s = 0; s < 3; ++s) for (int m = 0; m < 3; ++m) gCases.push_back({ 'E', s, m });
 	gCases.push_back({ 'T', 0, 0 });
@@ -437,6 +466,7 @@ void runCase(std::size_t i, Ctx& ctx)
 	case 'B': tokenSequences(ctx, c.a, c.b); if (c.a == 5) ctx.sample("all token sequences starting with M(3,2) up to depth " + std::to_string(c.b) + " over 4 literals and 28 matches"); break;
 	case 'C': matchGrid(ctx, c.a); break;
 	case 'D': drainCase(ctx, c.a); break;
+	case 'P': prefixCase(ctx, c.a); break;
 	case 'd': drainShortInputs(ctx, c.a, c.b); break;
 	case 'E': capacityCase(ctx, c.a, c.b); break;
 	case 'T': capacityTail(ctx); break;
